@@ -67,9 +67,18 @@ def call(d, xs):
 EMPTY = {"dom": [], "cod": [], "boxes": [], "offs": []}
 
 
-def row(kind, xs, exc, res, d=None, l=0, d2=None, res2=None):
+def row(kind, xs, exc, res, d=None, l=0, d2=None, res2=None, raw_eq=1):
     return {"kind": kind, "xs": list(xs), "exc": exc, "res": res, "d": d or EMPTY, "l": l,
-            "d2": d2 or EMPTY, "res2": res2 if res2 is not None else []}
+            "d2": d2 or EMPTY, "res2": res2 if res2 is not None else [], "raw_eq": raw_eq}
+
+
+def raw_equal(lhs, rhs, xs):
+    """python == between what the two diagrams return (not normalised to tuples); 1 when either call raises"""
+    args = [None if x == NONE else x for x in xs]
+    try:
+        return int(lhs(*args) == rhs(*args))
+    except Exception:
+        return 1
 
 
 def observations(states, c, rnd):
@@ -105,13 +114,22 @@ def observations(states, c, rnd):
             for xs in rnd.sample(list(itertools.product(INPUTS + (NONE,), repeat=nf + ng)), min(3, 5 ** (nf + ng))):
                 e1, r1 = call(lhs, xs)
                 e2, r2 = call(rhs, xs)
-                rows.append(row("square", xs, e1 or e2, r1, d=proj(lhs), d2=proj(rhs), res2=r2))
+                rows.append(row("square", xs, e1 or e2, r1, d=proj(lhs), d2=proj(rhs), res2=r2, raw_eq=raw_equal(lhs, rhs, xs)))
         for lhs, rhs in ((B[f] >> cartesian.Copy(mf), cartesian.Copy(nf) >> B[f] @ B[f]),
                          (B[f] >> cartesian.Discard(mf), cartesian.Discard(nf))):
             for xs in rnd.sample(list(itertools.product(INPUTS + (NONE,), repeat=nf)), min(4, 5 ** nf)):
                 e1, r1 = call(lhs, xs)
                 e2, r2 = call(rhs, xs)
-                rows.append(row("square", xs, e1 or e2, r1, d=proj(lhs), d2=proj(rhs), res2=r2))
+                rows.append(row("square", xs, e1 or e2, r1, d=proj(lhs), d2=proj(rhs), res2=r2, raw_eq=raw_equal(lhs, rhs, xs)))
+    # comonoid and symmetry axioms against the identity, at every width (equalities of what is returned)
+    for n in range(N + 1):
+        for lhs in (cartesian.Copy(n) >> cartesian.Id(n) @ cartesian.Discard(n), cartesian.Copy(n) >> cartesian.Discard(n) @ cartesian.Id(n)) + \
+                tuple(cartesian.Swap(a, n - a) >> cartesian.Swap(n - a, a) for a in range(n + 1)):
+            rhs = cartesian.Id(n)
+            for xs in rnd.sample(list(itertools.product(INPUTS + (NONE,), repeat=n)), min(4, 5 ** n)):
+                e1, r1 = call(lhs, xs)
+                e2, r2 = call(rhs, xs)
+                rows.append(row("square", xs, e1 or e2, r1, d=proj(lhs), d2=proj(rhs), res2=r2, raw_eq=raw_equal(lhs, rhs, xs)))
     return rows
 
 
